@@ -6,6 +6,9 @@
 
 #include <string>
 #include <string_view>
+#include <sstream>
+#include <string_theory/iostream>
+#include <string_theory/format>
 
 using verif::Case;
 using ref::Units;
@@ -305,6 +308,35 @@ enum { kNumLiterals = 16 };
 
 }  // namespace
 
+
+// The long text pushed through the stream routes: ST::writef(stream, "{}", s) and stream << s for wchar_t / char16_t / char32_t
+// std streams convert UTF-8 to the stream's units (possibly block by block); the units must be the standard encoding.
+template <class CharT> std::string stream_route_one(const ST::string &s, const std::vector<uint32_t> &scalars, const char *name, long &ncalls) {
+    ref::Units want = ref::encode(sizeof(CharT) == 2 ? ref::UTF16 : ref::UTF32, scalars);
+    for (int form = 0; form < 2; form++) {
+        std::basic_ostringstream<CharT> os;
+        try { if (form == 0) ST::writef(os, "{}", s); else os << s; }
+        catch (...) { return std::string(form == 0 ? "ST::writef(" : "operator<<(") + name + " stream) of well-formed text: " + verif::describe_current_exception(); }
+        ncalls++;
+        std::basic_string<CharT> got = os.str();
+        bool same = got.size() == want.size();
+        // (libstdc++ maps the char16_t unit FFFF to FFFD inside basic_stringbuf::overflow; either is accepted where FFFF is expected)
+        for (size_t i = 0; same && i < got.size(); i++) if ((uint32_t)got[i] != want[i] && !(sizeof(CharT) == 2 && want[i] == 0xFFFF && (uint32_t)got[i] == 0xFFFD)) same = false;
+        if (!same) { size_t k = 0; while (k < got.size() && k < want.size() && (uint32_t)got[k] == want[k]) k++;
+            return std::string(form == 0 ? "ST::writef(" : "operator<<(") + name + " stream) wrote " + verif::unum(got.size()) + " units, the standard encoding has " + verif::unum(want.size()) + "; first difference at unit " + verif::unum(k); }
+    }
+    return std::string();
+}
+std::string stream_routes_long(const std::vector<uint32_t> &scalars, long &ncalls) {
+    ref::Units u8 = ref::encode(ref::UTF8, scalars);
+    std::string bytes(u8.begin(), u8.end());
+    ST::string s = ST::string::from_validated(bytes.data(), bytes.size());
+    std::string why = stream_route_one<wchar_t>(s, scalars, "wchar_t", ncalls);
+    if (why.empty()) why = stream_route_one<char16_t>(s, scalars, "char16_t", ncalls);
+    if (why.empty()) why = stream_route_one<char32_t>(s, scalars, "char32_t", ncalls);
+    return why;
+}
+
 int verif_case(const uint8_t *data, size_t size, Case &c) {
     verif::Reader r(data, size, c);
     uint8_t first = r.u8();
@@ -323,6 +355,7 @@ int verif_case(const uint8_t *data, size_t size, Case &c) {
         if (t.total % 4096 == 0) c.label("length-multiple-of-4096"); else if ((t.total + 3) % 4096 <= 5) c.label("length-near-multiple-of-4096");
         c.nontrivial = widths[2] + widths[3] + widths[4] > 0;
         why = lean_long(t.scalars, ncalls);
+        if (why.empty() && t.scalars.size() <= 70000) why = stream_routes_long(t.scalars, ncalls);      // UTF-8 -> wide units through ST::writef / operator<< on wide std streams
         if (c.want_text) {
             std::string pat; char tmp[16]; for (uint32_t v : t.pattern) { snprintf(tmp, sizeof tmp, "U+%04X ", v); pat += tmp; }
             c.text = "C01 long text: pattern " + pat + "repeated, " + verif::unum(t.total) + " " + conv::enc_name(t.anchor) + " units exactly (" + verif::unum(t.scalars.size()) + " scalars, ASCII filler " +
